@@ -706,7 +706,7 @@ def check_C18(A, R, tier):
     run = nh_run(A, "joined", "none")
     nh = A.evaluator_fn("new_history")
     # R18.1: the returned map starts as a filtered clone of the input history
-    cl = [v for v in run.by_kind("clone_field") if v["field"] == A.L.history_field and v["fn"] == nh.name]
+    cl = [v for v in run.by_kind("clone_field") if v["field"] == A.L.history_field]
     col = [v for v in run.by_kind("collect") if "history_filtered" in v["tags"]]
     R.ob("R18.1", "new_history | starts from a clone of the input history", len(cl) >= 1)
     R.ob("R18.1", "new_history | ... passed through drain/filter/collect only (values untouched)", len(col) == 1,
@@ -804,7 +804,7 @@ def filter_rules(A, R, fcl, nhrun):
     r = run_filter_mode(A, nh, fcl, None, None)
     R.ob("R18.5", "filter | every key class can reach the superseded filter", r["parts_get"])
     # R18.4 liveness of the superseded filter: shape of lookup keys vs. shape of stored keys ------------------
-    parts_ins = [v for v in nhrun.by_kind("map_op") if v["op"] == "insert" and v["target"][0] == "local" and v["fn"] == nh.name
+    parts_ins = [v for v in nhrun.by_kind("map_op") if v["op"] == "insert" and v["target"][0] == "local"
                  and not ("history_filtered" in v["target"][2] or "history_clone" in v["target"][2])]
     parts_get = [v for k, v in nhrun.facts.items() if k[0] == "map_op" and v["op"] == "get" and v["target"][0] == "local"
                  and not ("history_filtered" in v["target"][2] or "history_clone" in v["target"][2])]
@@ -837,12 +837,20 @@ def filter_rules(A, R, fcl, nhrun):
                         if q[0] == "jobid":
                             sy = q[1]
                 if sy is not None and isinstance(sy, tuple) and sy[0] == "b":
-                    heads.add(sy[2])
+                    heads.add((sy[1], sy[2]))
         body_nh = nh
         okall = len(heads) == 1
         why = "the loop that fills the map is not identified"
-        if okall:
-            h = list(heads)[0]
+        if all(pi.get("collected") for pi in parts_ins):
+            # built by one iterator chain over the jobs: every job contributes unless the chain filters
+            okall = not any(pi.get("filtered") for pi in parts_ins)
+            why = "the iterator chain that fills the map filters jobs out"
+        elif okall:
+            fidh, h = list(heads)[0]
+            fnm = nhrun.frames.get(fidh)
+            body_nh = A.facts.body(fnm[0]) if fnm else nh
+            # positions of the insertions inside that activation
+            parts_ins = [dict(pi, bb=(nhrun.pos_in(pi, fidh) or (None, pi["bb"]))[1]) for pi in parts_ins]
             sw = body_nh.term(h)["t"]
             loop = body_nh.natural_loop(h)
             blocks = set(pi["bb"] for pi in parts_ins)
@@ -873,6 +881,7 @@ def run_filter_mode(A, nh, fcl, hit_a, hit_b):
         res = orig(I_, state, frame, bi, t, args, span)
         a = args[0]
         if models.self_field_of(I_, a) == A.L.idmap_field and frame.body.name == fcl:
+            lookups.append(bi)
             k = models.deref(I_, state, args[1])
             part = None
             if k[0] == "str":
@@ -892,15 +901,7 @@ def run_filter_mode(A, nh, fcl, hit_a, hit_b):
         return res
     I.models = dict(I.models)
     I.models["std::collections::HashMap::<K, V, S, A>::get"] = get_model
-    if hit_a is not None:
-        # look only at keys of the per-dependency class: "<first>!!!<second>" with a non-empty second part
-        from domain import TRUE, FALSE
-        oc = I.models["core::str::<impl str>::contains"]
-        oe = I.models["core::str::<impl str>::is_empty"]
-        I.models["core::str::<impl str>::contains"] = lambda I_, st_, fr_, bi_, t_, a_, sp_: (
-            [(TRUE, st_)] if fr_.body.name == fcl else oc(I_, st_, fr_, bi_, t_, a_, sp_))
-        I.models["core::str::<impl str>::is_empty"] = lambda I_, st_, fr_, bi_, t_, a_, sp_: (
-            [(FALSE, st_)] if fr_.body.name == fcl else oe(I_, st_, fr_, bi_, t_, a_, sp_))
+    lookups = []
     # the closure's environment: captured references are unknown; its argument is a (&String, &String) pair
     pair = adt("tuple", {0: (string([("histkey",)]), string([("hist", frozenset([("anykey",)]))]))})
     st = State()
@@ -917,10 +918,44 @@ def run_filter_mode(A, nh, fcl, hit_a, hit_b):
             rv = set(c[0] for c in r[2])
         else:
             rv = {0, 1}
-    parts_get = any(k[0] == "map_op" and v["op"] == "get" and v["target"][0] != "self" for k, v in I.rec.facts.items()) or \
-        any(k[0] == "call" and "{closure" in v["callee"] and v["callee"] != fcl for k, v in I.rec.facts.items())
-    edge = any(k[0] == "edge_weight" for k, v in I.rec.facts.items())
+    # only what happens on the paths behind the id lookups belongs to the per-dependency key class
+    region = None
+    if hit_a is not None and lookups:
+        es = I.edges.get(fr.fid, set())
+        succ = {}
+        for (a_, b_) in es:
+            succ.setdefault(a_, []).append(b_)
+        # start behind the lookup that is executed last (both lookups are on every path of this class)
+        starts = set(lookups)
+        last = [b_ for b_ in starts if not any(b_ != o and o in reach_from(succ, b_) for o in starts)] or list(starts)
+        region = set()
+        for b_ in last:
+            region |= reach_from(succ, b_)
+
+    def in_region(v):
+        if region is None:
+            return True
+        idx = dict(((nm[0], tuple(nm[1])), f) for f, nm in I.frame_names.items())
+        ch = list(v.get("stack") or ()) + [(v["fn"], v["bb"])]
+        for i_, (fn_, bb_) in enumerate(ch):
+            if idx.get((fn_, tuple(ch[:i_]))) == fr.fid:
+                return bb_ in region
+        return False
+    parts_get = any(k[0] == "map_op" and v["op"] == "get" and v["target"][0] != "self" and in_region(v) for k, v in I.rec.facts.items()) or \
+        any(k[0] == "call" and "{closure" in v["callee"] and v["callee"] != fcl and in_region(v) for k, v in I.rec.facts.items())
+    edge = any(k[0] == "edge_weight" and in_region(v) for k, v in I.rec.facts.items())
     return dict(ret=rv, parts_get=parts_get, edge=edge, notes=I.rec.notes)
+
+
+def reach_from(succ, start):
+    seen, st = set(), [start]
+    while st:
+        x = st.pop()
+        if x in seen:
+            continue
+        seen.add(x)
+        st.extend(succ.get(x, ()))
+    return seen
 
 
 def closure_env(A, I, body, st):
